@@ -676,3 +676,60 @@ pub fn gen_exhaustive(depth: usize) -> Vec<Vec<String>> {
     }
     cases
 }
+
+/// Exhaustive small scenarios around the single pending-control slot: a write buffer that is (almost)
+/// full behind a blocked transport, then every sequence of three events out of
+/// {ping A, ping B, peer Close, user pong, user close, flush, unblock, block}, then recovery.
+pub fn gen_slotrace() -> Vec<Vec<String>> {
+    let mut cases = Vec::new();
+    let mut id = 0;
+    for (role, client) in [("server", false), ("client", true)] {
+        for fill in [0usize, 1] {
+            for code in 0..512usize {
+                let mask = if client { None } else { Some([0x21u8, 0x43, 0x65, 0x87]) };
+                let m = if client { "m=a1a2a3a4,b1b2b3b4,c1c2c3c4,d1d2d3d4,e1e2e3e4" } else { "m=-" };
+                let mut lines = vec![format!("case endpoint slotrace-{id}")];
+                id += 1;
+                lines.push(format!(
+                    "cfg role={role} rbuf=64 wbuf=0 maxw=64 maxmsg=none maxframe=none unmasked=0 pre=none"
+                ));
+                lines.push("script wrdef=b".into());
+                if fill == 1 {
+                    // 61 bytes stay in the buffer: no control frame fits behind them
+                    let n = if client { 55 } else { 59 };
+                    lines.push(format!("op write binary {} {m}", hex(&vec![0x42u8; n])));
+                }
+                let mut k = code;
+                for _ in 0..3 {
+                    match k % 8 {
+                        0 => {
+                            lines.push(format!("peer {}", hex(&enc_frame(true, 0, 9, mask, &[0xaa], LenForm::Minimal))));
+                            lines.push(format!("op read {m}"));
+                        }
+                        1 => {
+                            lines.push(format!("peer {}", hex(&enc_frame(true, 0, 9, mask, &[0xbb, 0xbb], LenForm::Minimal))));
+                            lines.push(format!("op read {m}"));
+                        }
+                        2 => {
+                            lines.push(format!("peer {}", hex(&enc_frame(true, 0, 8, mask, &[0x03, 0xe8, 0x78], LenForm::Minimal))));
+                            lines.push(format!("op read {m}"));
+                        }
+                        3 => lines.push(format!("op write pong cc {m}")),
+                        4 => lines.push(format!("op close 1001 79 {m}")),
+                        5 => lines.push(format!("op flush {m}")),
+                        6 => lines.push(format!("script wrdef=a{}", 1usize << 40)),
+                        _ => lines.push("script wrdef=b".into()),
+                    }
+                    k /= 8;
+                }
+                lines.push(format!("script wrdef=a{} fldef=o", 1usize << 40));
+                lines.push(format!("op flush {m}"));
+                lines.push(format!("op read {m}"));
+                lines.push(format!("op read {m}"));
+                lines.push("end".into());
+                cases.push(lines);
+            }
+        }
+    }
+    cases
+}
